@@ -150,7 +150,7 @@ class MemGate:
             self.cv.notify_all()
 
 
-CHECK_RE = re.compile(r"^Check (\d+): (\S+)\n\t - Status: (\w+)\n\t - Description: \"(.*)\"\n\t - Location: (.*)$", re.M)
+CHECK_RE = re.compile(r"^Check (\d+): (.+)\n\t - Status: (\w+)\n\t - Description: \"(.*)\"\n\t - Location: (.*)$", re.M)
 
 
 def parse_log(text):
@@ -170,6 +170,7 @@ def parse_log(text):
     funcs = sorted({m.group(1) for m in re.finditer(r" in function (ebml_iterable\S*)", text)})
     return {
         "checks": checks,
+        "raw_failures": len(re.findall(r"^\t - Status: FAILURE", text, re.M)),
         "verdict": verdict,
         "verification_time_s": float(vt.group(1)) if vt else None,
         "solver_s": round(solver, 3),
@@ -288,6 +289,8 @@ def classify(h, r, prop):
         if not any(STUB_LINES[s] in x.replace(" ", "") for x in r["stubs_applied"]):
             return "inconclusive", ["stub %s not applied" % s]
     fails = [c for c in r["checks"] if c["status"] == "FAILURE"]
+    if len(fails) != r.get("raw_failures", len(fails)):
+        return "inconclusive", ["log parser missed a failing check (%d parsed, %d in log)" % (len(fails), r.get("raw_failures"))]
     undet = [c for c in r["checks"] if c["status"] in ("UNDETERMINED", "ERROR")]
     covers = [c for c in r["checks"] if ".cover." in c["name"] or c["name"].endswith(".cover")]
     mine = []
